@@ -33,7 +33,8 @@ def from_behaviour(idx, beh=None):
         calls.append({'op': 'dumps', 'args': session.dumps_args(), 'exact': True})
     for c in calls if doc is not None else []:
         evs.append(session.record_call(doc, c))
-    return {'log': evs, 'text': session.render(lines), 'classes': [], 'seed': idx, 'tags': ['tlc-behaviour']}
+    return {'log': evs, 'text': session.render(lines), 'classes': [], 'seed': idx, 'tags': ['tlc-behaviour'],
+            'replay': {'fn': 'harness.checks.c02:from_behaviour', 'seed': idx, 'kw': {'beh': beh}}}
 
 
 _BEHS = []      # set before the pool forks
@@ -106,14 +107,8 @@ def main():
                 '(b) seeded random layouts; each session = the tree observed after every line + spine ids/types (+ exact default '
                 'export for (a)); non-trivial = distinct sessions whose layout contains a split, a join or a surplus line')
     if a.replay_case:
-        case = a.replay_case['case']
-        tags = case.get('tags') or []
-        s = random_layout(case['seed'], a.tier) if 'tlc-behaviour' not in tags else None
-        if s is None:
-            raise MachineryError('replay of a TLC behaviour: re-run the check (behaviours are re-enumerated deterministically)')
-        mc = tlc.run_tlc('MC_SpinePaths', 'MC_SpinePaths_q5.cfg', workers=16, timeout=1200)
-        run.add_tlc(mc)
-        docs.validate_sessions(run, [s], relevant=docs.relevant_for(run.pid))
+        run.add_tlc(tlc.run_tlc('MC_SpinePaths', 'MC_SpinePaths_q5.cfg', workers=16, timeout=1200, tag='NOVP'))
+        docs.validate_sessions(run, docs.replay_sessions(a.replay_case), relevant=docs.relevant_for(run.pid))
         return run.finish()
     import concurrent.futures as cf
     with cf.ThreadPoolExecutor(2) as ex:
